@@ -42,7 +42,9 @@ LCM(a, b) == IF a = 0 \/ b = 0 THEN 0
 
 IsPrime(n) == n >= 2 /\ \A d \in 2..Min2(n - 1, 46340) : d * d > n \/ n % d # 0      \* n < 2^31: trial division up to the square root
 IsPrimeSlow(n) == n >= 2 /\ \A d \in 2..(n - 1) : n % d # 0
-SmallestFactor(n) == SetMin({d \in 2..n : n % d = 0})                        \* n >= 2
+RECURSIVE FirstFactor(_, _)
+FirstFactor(n, d) == IF d * d > n THEN n ELSE IF n % d = 0 THEN d ELSE FirstFactor(n, d + 1)
+SmallestFactor(n) == FirstFactor(n, 2)                                       \* n >= 2: the least divisor > 1 (n itself when n is prime)
 
 --------------------------------------------------------------------------
 (* Division with remainder, by the characterising equations *)
